@@ -21,14 +21,15 @@ VARIABLES cfg,        \* [n, zone, nz, mode, tol, delay]
           outcome,    \* "none" | "ok" | "err"
           chan,       \* ch: FIFO of instances
           tokens,     \* forceStart tokens available
-          timerFired, \* the delay has elapsed
+          clock,      \* bubble clock in half delays since the call started, saturating at 2: every delayed
+                      \* goroutine arms its timer when it starts (= when Do is called), so all fire at clock 2
           ctxDone,    \* "live" | "parent" | "returned": the derived context handed to every f
           numSucc, numErr, waiting, failures,
           results,    \* sequence of instances whose result main appended
           mainPc, ret,
           calls, errRecv
 
-vars == <<cfg, st, outcome, chan, tokens, timerFired, ctxDone, numSucc, numErr, waiting, failures,
+vars == <<cfg, st, outcome, chan, tokens, clock, ctxDone, numSucc, numErr, waiting, failures,
           results, mainPc, ret, calls, errRecv>>
 
 Inst     == 1..cfg.n
@@ -60,12 +61,13 @@ Failed    == IF ZoneMode
 
 \* i >= len(r.Instances) - r.MaxErrors (0-based) and delay > 0 and not zone-aware
 Delayed(c, i) == c.delay /\ c.mode = "default" /\ i > c.n - c.tol
+TimerFired == clock = 2
 
 InitCfg(c) ==
   /\ cfg = c
   /\ st = [i \in 1..c.n |-> IF Delayed(c, i) THEN "delayed" ELSE "starting"]
   /\ outcome = [i \in 1..c.n |-> "none"]
-  /\ chan = <<>> /\ tokens = 0 /\ timerFired = FALSE /\ ctxDone = "live"
+  /\ chan = <<>> /\ tokens = 0 /\ clock = 0 /\ ctxDone = "live"
   /\ numSucc = 0 /\ numErr = 0
   /\ waiting  = [z \in 1..c.nz |-> Cardinality({i \in 1..c.n : c.zone[i] = z})]
   /\ failures = [z \in 1..c.nz |-> 0]
@@ -82,7 +84,7 @@ Begin(i) ==
   /\ st[i] = "starting"
   /\ st' = [st EXCEPT ![i] = "running"]
   /\ calls' = [calls EXCEPT ![i] = @ + 1]
-  /\ UNCHANGED <<cfg, outcome, chan, tokens, timerFired, ctxDone, numSucc, numErr, waiting, failures,
+  /\ UNCHANGED <<cfg, outcome, chan, tokens, clock, ctxDone, numSucc, numErr, waiting, failures,
                  results, mainPc, ret, errRecv>>
 
 \* select { <-ctx.Done(): return | <-forceStart | <-after.C }
@@ -90,8 +92,8 @@ Wake(i) ==
   /\ st[i] = "delayed"
   /\ \/ /\ ctxDone # "live" /\ st' = [st EXCEPT ![i] = "gone"] /\ UNCHANGED tokens
      \/ /\ tokens > 0 /\ tokens' = tokens - 1 /\ st' = [st EXCEPT ![i] = "starting"]
-     \/ /\ timerFired /\ st' = [st EXCEPT ![i] = "starting"] /\ UNCHANGED tokens
-  /\ UNCHANGED <<cfg, outcome, chan, timerFired, ctxDone, numSucc, numErr, waiting, failures,
+     \/ /\ TimerFired /\ st' = [st EXCEPT ![i] = "starting"] /\ UNCHANGED tokens
+  /\ UNCHANGED <<cfg, outcome, chan, clock, ctxDone, numSucc, numErr, waiting, failures,
                  results, mainPc, ret, calls, errRecv>>
 
 Finish(i, o) ==
@@ -99,19 +101,20 @@ Finish(i, o) ==
   /\ st' = [st EXCEPT ![i] = "posted"]
   /\ outcome' = [outcome EXCEPT ![i] = o]
   /\ chan' = Append(chan, i)
-  /\ UNCHANGED <<cfg, tokens, timerFired, ctxDone, numSucc, numErr, waiting, failures,
+  /\ UNCHANGED <<cfg, tokens, clock, ctxDone, numSucc, numErr, waiting, failures,
                  results, mainPc, ret, calls, errRecv>>
 
-Timer ==
-  /\ cfg.delay /\ ~timerFired /\ \E i \in Inst : st[i] = "delayed"
-  /\ timerFired' = TRUE
+\* half a delay passes
+Advance ==
+  /\ cfg.delay /\ clock < 2 /\ \E i \in Inst : st[i] = "delayed"
+  /\ clock' = clock + 1
   /\ UNCHANGED <<cfg, st, outcome, chan, tokens, ctxDone, numSucc, numErr, waiting, failures,
                  results, mainPc, ret, calls, errRecv>>
 
 ParentCancel ==
   /\ ctxDone = "live" /\ mainPc = "loop"
   /\ ctxDone' = "parent"
-  /\ UNCHANGED <<cfg, st, outcome, chan, tokens, timerFired, numSucc, numErr, waiting, failures,
+  /\ UNCHANGED <<cfg, st, outcome, chan, tokens, clock, numSucc, numErr, waiting, failures,
                  results, mainPc, ret, calls, errRecv>>
 
 \* deferred cancel()
@@ -119,7 +122,7 @@ AtReturn == ctxDone' = IF ctxDone = "live" THEN "returned" ELSE ctxDone
 
 MainRecv ==
   /\ mainPc = "loop" /\ ~Succeeded /\ chan # <<>>
-  /\ UNCHANGED <<cfg, outcome, timerFired, calls>>
+  /\ UNCHANGED <<cfg, outcome, clock, calls>>
   /\ LET i == Head(chan)
          z == cfg.zone[i]
      IN /\ chan' = Tail(chan)
@@ -150,7 +153,7 @@ MainCtxDone ==
   /\ mainPc = "loop" /\ ~Succeeded /\ ctxDone # "live"
   /\ mainPc' = "returned"
   /\ ret' = [kind |-> "err", seq |-> <<>>, cls |-> "cancelled", inst |-> 0]
-  /\ UNCHANGED <<cfg, st, outcome, chan, tokens, timerFired, ctxDone, numSucc, numErr, waiting, failures,
+  /\ UNCHANGED <<cfg, st, outcome, chan, tokens, clock, ctxDone, numSucc, numErr, waiting, failures,
                  results, calls, errRecv>>
 
 ReturnOK ==
@@ -158,10 +161,10 @@ ReturnOK ==
   /\ mainPc' = "returned"
   /\ ret' = [kind |-> "ok", seq |-> results, cls |-> "-", inst |-> 0]
   /\ AtReturn
-  /\ UNCHANGED <<cfg, st, outcome, chan, tokens, timerFired, numSucc, numErr, waiting, failures,
+  /\ UNCHANGED <<cfg, st, outcome, chan, tokens, clock, numSucc, numErr, waiting, failures,
                  results, calls, errRecv>>
 
-EnvNext == (\E i \in Inst : \E o \in {"ok", "err"} : Finish(i, o)) \/ Timer \/ ParentCancel
+EnvNext == (\E i \in Inst : \E o \in {"ok", "err"} : Finish(i, o)) \/ Advance \/ ParentCancel
 IntNext == (\E i \in Inst : Begin(i) \/ Wake(i)) \/ MainRecv \/ MainCtxDone \/ ReturnOK
 Next == EnvNext \/ IntNext
 
@@ -170,7 +173,7 @@ Terminated == mainPc = "returned" /\ \A i \in Inst : st[i] \in {"posted", "recv"
 Done == Terminated /\ UNCHANGED vars
 NextD == Next \/ Done
 
-WakeEnabled(i) == st[i] = "delayed" /\ (ctxDone # "live" \/ tokens > 0 \/ timerFired)
+WakeEnabled(i) == st[i] = "delayed" /\ (ctxDone # "live" \/ tokens > 0 \/ TimerFired)
 Quiet == /\ \A i \in Inst : st[i] # "starting" /\ ~WakeEnabled(i)
          /\ mainPc = "loop" => (~Succeeded /\ chan = <<>> /\ ctxDone = "live")
 
@@ -186,7 +189,7 @@ ExceededH == IF ZoneMode THEN Cardinality({cfg.zone[i] : i \in errRecv}) > cfg.t
              ELSE Cardinality(errRecv) > cfg.tol
 
 TypeOK == /\ st \in [Inst -> {"delayed", "starting", "running", "posted", "recv", "gone"}]
-          /\ tokens \in 0..cfg.n
+          /\ tokens \in 0..cfg.n /\ clock \in 0..2
           /\ Cardinality(SeqRange(results)) = Len(results)
           /\ (mainPc = "loop") = (ret.kind = "none")
 
@@ -202,7 +205,7 @@ ErrWhenExceeded ==
                          \/ ret.cls = "cancelled" /\ ctxDone = "parent"
 AtMostOneCall == \A i \in Inst : calls[i] <= 1
 \* with a delay the extra requests go out only after a failure or once the delay has elapsed
-Minimised == (cfg.delay /\ ~ZoneMode /\ ~timerFired) =>
+Minimised == (cfg.delay /\ ~ZoneMode /\ ~TimerFired) =>
                 Cardinality(Called) <= Max2(MinSucceeded, 0) + Cardinality(errRecv)
 AllCancelledAtReturn == mainPc = "returned" => ctxDone # "live"
 Termination == <>Terminated
